@@ -68,9 +68,16 @@ def repeatInterleavePat : Pat :=
   .op "Reshape" [.op "Expand" [.op "Unsqueeze" [X, .sym "axes" true] none, .sym "expand_shape" false] none,
     .sym "reshape_shape" false] (some "reshape")
 
+def matmulIntPat : Pat :=
+  bop "Mul" (.op "Cast" [.op "MatMulInteger" [.sym "a" false, .sym "b" false, .sym "a_zero" false, .sym "b_zero" false] none] (some "cast"))
+    (.sym "scale" false)
+def convIntPat : Pat :=
+  bop "Mul" (.op "Cast" [.op "ConvInteger" [.sym "x" false, .sym "w" false, .sym "x_zero" false, .sym "w_zero" false] (some "conv")] (some "cast"))
+    (.sym "scale" false)
+
 def allFusionPatterns : List Pat :=
   [identityPat, reciprocalPat, siluPat, swishPat, geluPat, approxGeluPat, layerNormPat, rmsNormPat,
-   matmulAddPat, safeSoftmaxPat, addSoftmaxPat, reduceMeanAxesPat, repeatInterleavePat]
+   matmulAddPat, safeSoftmaxPat, addSoftmaxPat, reduceMeanAxesPat, repeatInterleavePat, matmulIntPat, convIntPat]
 
 end Fusions
 end RtenVerif.Pattern
